@@ -12,6 +12,7 @@ import (
 //
 // history input   (variant (step ...))
 //   variant 0 StrMap[int] New()   1 StrMap[string] New()   2 Str2Str NewStr2Str()   3 Str2Str{} zero value
+//   variant 5 StrMap[int]{} zero value (never loaded: probes only)
 //           4 StrMap[c07rec] New()  (struct values; a value is shown as the integer it was built from,
 //             -1 if its fields are no longer consistent with one another)
 //   step = (kind (key ...) (value ...) (probe ...))
@@ -348,6 +349,8 @@ func c07run(in V) V {
 		inst = &c07s2s{strmap.NewStr2Str()}
 	case 4:
 		inst = &c07recm{strmap.New[c07rec]()}
+	case 5:
+		inst = &c07int{new(strmap.StrMap[int])} // the zero value, never loaded: only probed
 	default:
 		inst = &c07s2s{&strmap.Str2Str{}}
 	}
@@ -746,7 +749,7 @@ func c07keys(r *rand.Rand, shape, n int) []string {
 func c07vals(r *rand.Rand, variant, n int) []V {
 	vv := make([]V, n)
 	for i := range vv {
-		if variant == 0 || variant == 4 {
+		if variant == 0 || variant == 4 || variant == 5 {
 			switch r.Intn(6) {
 			case 0:
 				vv[i] = I(0)
@@ -902,6 +905,7 @@ func init() {
 				g.Add("unloaded+loads", c07history(g, variant, 2, true, -1))
 				g.Add("empty", c07history(g, variant, 1, false, 0))
 			}
+			g.Add("unloaded-zero-value", c07history(g, 5, 0, true, -1))
 			// bounded sweep over tiny sizes x shapes x variants (one load, full probing)
 			for variant := 0; variant <= 4; variant++ {
 				for n := 0; n <= 8; n++ {
